@@ -22,14 +22,14 @@ def configs(tier, rng):
     base = dict(NSs={1, 2, 3}, IntChoices={True, False}, EConChoices={0, 11, 12})
     if tier == 'quick':
         cfgs.append(dict(base, SuppKinds={1, 7, 4}, ProbKinds={1, 2, 4}, ExptKinds={0}, Forms={'B'}, PieceSets={rng.choice([1, 2, 3, 4, 5]), 6}, Parts={0}, Affs={'a0'}, EConChoices={0, 11}))
-        cfgs.append(dict(base, SuppKinds={3, 5, 6}, ProbKinds={3, 5}, ExptKinds={1, 2, 3, 4}, Forms={'B'}, PieceSets={rng.choice([1, 2, 3, 4, 5]), 7}, Parts={0}, Affs={'a0'}, EConChoices={0, 12}, IntChoices={False}))
-        cfgs.append(dict(base, SuppKinds={2, 7, 4}, ProbKinds={1, 2, 5}, ExptKinds={0, 1, 3}, Forms={'A'}, PieceSets={1, rng.choice([2, 3, 4])}, Parts={0, 1, 2}, Affs={'a0', 'a1', 'a12'}, EConChoices={0}, IntChoices={False}))
-        cfgs.append(dict(base, SuppKinds={1, 5, 6}, ProbKinds={1, 3, 4}, ExptKinds={0, 2, 4}, Forms={'A'}, PieceSets={rng.choice([1, 5]), 3}, Parts={0, 1, 2}, Affs={'a0', 'a12'}, EConChoices={0, 11}, IntChoices={False}))
+        cfgs.append(dict(base, SuppKinds={3, 5, 6}, ProbKinds={3, 5}, ExptKinds={1, 2, 3, 4, 5, 6}, Forms={'B'}, PieceSets={rng.choice([1, 2, 3, 4, 5]), 7}, Parts={0}, Affs={'a0'}, EConChoices={0, 12}, IntChoices={False}))
+        cfgs.append(dict(base, SuppKinds={8, 7, 4}, ProbKinds={1, 2, 5}, ExptKinds={0, 1, 3}, Forms={'A'}, PieceSets={1, rng.choice([2, 3, 4])}, Parts={0, 1, 2}, Affs={'a0', 'a1', 'a12'}, EConChoices={0}, IntChoices={False}))
+        cfgs.append(dict(base, SuppKinds={1, 5, 6}, ProbKinds={1, 3, 4}, ExptKinds={0, 2, 4, 5}, Forms={'A'}, PieceSets={rng.choice([1, 5]), 3}, Parts={0, 1, 2}, Affs={'a0', 'a12'}, EConChoices={0, 11}, IntChoices={False}))
     else:
-        allk = dict(SuppKinds={1, 2, 3, 4, 5, 6, 7}, ProbKinds={1, 2, 3, 4, 5}, PieceSets={1, 2, 3, 4, 5, 6, 7})
+        allk = dict(SuppKinds={1, 2, 3, 4, 5, 6, 7, 8}, ProbKinds={1, 2, 3, 4, 5}, PieceSets={1, 2, 3, 4, 5, 6, 7})
         cfgs.append(dict(base, **allk, ExptKinds={0}, Forms={'B'}, Parts={0}, Affs={'a0'}))
-        cfgs.append(dict(base, **allk, ExptKinds={1, 2, 3, 4}, Forms={'B'}, Parts={0}, Affs={'a0'}, IntChoices={False}))
-        cfgs.append(dict(base, **allk, ExptKinds={0, 1, 2, 3, 4}, Forms={'A'}, Parts={0, 1, 2}, Affs={'a0', 'a1', 'a12'}, IntChoices={False}, EConChoices={0, 11}))
+        cfgs.append(dict(base, **allk, ExptKinds={1, 2, 3, 4, 5, 6}, Forms={'B'}, Parts={0}, Affs={'a0'}, IntChoices={False}))
+        cfgs.append(dict(base, **allk, ExptKinds={0, 1, 2, 3, 4, 5, 6}, Forms={'A'}, Parts={0, 1, 2}, Affs={'a0', 'a1', 'a12'}, IntChoices={False}, EConChoices={0, 11}))
     return cfgs
 
 
@@ -133,7 +133,7 @@ def run(rep, tier, props):
             _emit(rep, dict(sig='C04:worse-than-grid-decision:' + tag, prop='C04', what='reported optimum is worse than the exact value of an integer decision (TLC PostTight)', **detail), props)
         if not v['exact']:
             _emit(rep, dict(sig='C04:integer-optimum-differs:' + tag, prop='C04', what='integer model: reported optimum below the exact grid optimum (TLC PostExact)', **detail), props)
-        if not v['status']:
+        if not v['status'] and not (p['supp'] == 7 and not any(w in (r.get('solver_status') or '').lower() for w in ('infeasible', 'unbounded'))):
             _emit(rep, dict(sig='C04:feasible-model-not-solved:' + tag, prop='C04', what='a feasible grid decision exists but no solution was reported', **detail), props)
         # float oracle
         tol = 5e-4 if p['supp'] == 7 else (5e-5 if job['solver'] == 'eco' else 5e-6)
@@ -159,7 +159,14 @@ def run(rep, tier, props):
                 elif abs(d) > tol * (1 + abs(opt['val'])):
                     rep.inconclusive += 1
             else:
-                _emit(rep, dict(sig='C04:feasible-model-not-solved:' + tag + ':' + job['solver'], prop='C04', what='the model has optimum %.6g but rsome reported no solution' % opt['val'], **detail), props)
+                ss = (r.get('solver_status') or '').lower()
+                if p['supp'] == 7 and not ('infeasible' in ss or 'unbounded' in ss):
+                    # exponential-cone supports can only be solved by ECOS here; "numerical problems" / "close to optimal" /
+                    # iteration limits on these degenerate cones are the solver giving up, not a verdict about the model
+                    rep.inconclusive += 1
+                    stats['ecos_gave_up'] = stats.get('ecos_gave_up', 0) + 1
+                else:
+                    _emit(rep, dict(sig='C04:feasible-model-not-solved:' + tag + ':' + job['solver'], prop='C04', what='the model has optimum %.6g but rsome reported no solution (%s)' % (opt['val'], r.get('solver_status')), **detail), props)
         else:
             st = opt.get('status', 'none')
             stats['oracle_other'][st] = stats['oracle_other'].get(st, 0) + 1
